@@ -8,7 +8,7 @@ from .. import termjson
 from ..core import Suite, Driver, VERIF, DRIVER
 
 PROPERTY = "C13"
-LEAN_MODULES = ["DAVerif.Props.C13", "DAVerif.Props.C13wf"]
+LEAN_MODULES = ["DAVerif.Props.C13", "DAVerif.Props.C13wf", "DAVerif.Proofs.ExprWalkWfFloat"]
 THEOREMS = [
     # the walker only returns well-formed terms, so the round trip holds for every accepted text (Props/C13wf.lean)
     "DAVerif.Expr.C13_parse_gram", "DAVerif.Expr.C13_walk_wf", "DAVerif.Expr.C13_generated_tables_canon",
